@@ -488,6 +488,13 @@ impl Scenario for C20 {
             if text.trim_end().ends_with("[HitObjects]") || rng.chance(1, 2) {
                 let mut t = rng.range(0, 4000);
                 for _ in 0..1 + rng.below(6) {
+                    if rng.chance(1, 4) {
+                        // a control point right before the slider (sections may repeat): ticks switched off (NaN), extreme or
+                        // ordinary velocities, another timing
+                        let bl = *rng.pick(&["NaN", "NaN", "-50", "-1000", "-10", "300", "-0.0001"]);
+                        let inh = if bl.starts_with('-') || bl == "NaN" { 0 } else { 1 };
+                        text.push_str(&format!("[TimingPoints]\n{},{bl},4,1,0,{},{inh},0\n[HitObjects]\n", t - rng.range(0, 50), *rng.pick(&[100, 60, 30])));
+                    }
                     // sliders with repeats and per-node samples of distinct volumes, some with a declared length that
                     // differs from the path's own length (doubled last anchor)
                     let (x, y) = (rng.range(0, 512), rng.range(0, 384));
